@@ -210,7 +210,7 @@ func execP2(kind string, a []string) string {
 	return "bad-op"
 }
 
-// vx comp <keys16> <a>:<b> … | vx hash <keys24> <x…> …
+// vx comp <keys16> <a>:<b> … | vx hash <keys24> <x…> … | vx hash16 <keys24> <row0;…;row15> …
 func c14ExecVx(a []string) string {
 	if len(a) < 2 {
 		return "bad-op"
@@ -259,6 +259,44 @@ func c14ExecVx(a []string) string {
 		}
 		for i, tok := range a[2:] {
 			outs[i] = c14Guard(func() string { return show(vortex.HashPoseidon2(toEl(c14ParseBigs(tok)))) })
+		}
+	case "hash16":
+		// 16 rows of equal length n (a multiple of 16) hashed at once into the caller's 16 leaves, which hold garbage
+		if a[1] != p.keys(24, 6, 21) {
+			return "bad-keys"
+		}
+		for i, tok := range a[2:] {
+			outs[i] = c14Guard(func() string {
+				rows := strings.Split(tok, ";")
+				if len(rows) != 16 {
+					return "bad-op"
+				}
+				var flat []kb.Element
+				n := -1
+				for _, r := range rows {
+					e := toEl(c14ParseBigs(r))
+					if n >= 0 && len(e) != n {
+						return "bad-op"
+					}
+					n = len(e)
+					flat = append(flat, e...)
+				}
+				if n%16 != 0 {
+					return "bad-op"
+				}
+				leaves := make([]vortex.Hash, 16)
+				for j := range leaves {
+					for k := range leaves[j] {
+						leaves[j][k].SetUint64(0x9e3779b9*uint64(17*j+k+1) | 1)
+					}
+				}
+				vortex.HashPoseidon2x16(flat, leaves, n)
+				res := make([]string, len(leaves))
+				for j := range leaves {
+					res[j] = show(leaves[j])
+				}
+				return strings.Join(res, ";")
+			})
 		}
 	default:
 		return "bad-op"
@@ -412,4 +450,24 @@ func c14GenVx(g *gen) {
 		toks = append(toks, c14ShowBigs(c14RandVec(g, q, g.rng.intn(80))))
 	}
 	g.emit("C14 vx hash %s %s", p.keys(24, 6, 21), join(toks))
+	// HashPoseidon2x16: 16 rows at once into a destination slice of leaves pre-filled with garbage
+	toks = nil
+	ns := []int{0, 16, 32, 48}
+	if g.thorough() {
+		ns = append(ns, 64, 128, 512)
+	}
+	for ti, n := range ns {
+		rows := make([]string, 16)
+		for j := range rows {
+			v := c14RandVec(g, q, n)
+			if ti%2 == 1 && j%5 == 0 { // some all-zero rows
+				for k := range v {
+					v[k] = big.NewInt(0)
+				}
+			}
+			rows[j] = c14ShowBigs(v)
+		}
+		toks = append(toks, strings.Join(rows, ";"))
+	}
+	g.emit("C14 vx hash16 %s %s", p.keys(24, 6, 21), join(toks))
 }
